@@ -32,8 +32,6 @@ Definition N_of st : 'M[F]_n := if st is Some (N, _, _) then N else 0.
 (* T_{t+1}' r_{t+1}: what the smoothed state of period t needs from the later periods *)
 Definition Tr st : 'cV[F]_n := (T_of st)^T *m r_of st.
 
-Lemma mul_thin_flat m k (A : 'M[F]_(m, 0)) (B : 'M[F]_(0, k)) : A *m B = 0.
-Proof. by rewrite [A]thinmx0 mul0mx. Qed.
 
 (* one_step_back in closed form; the `t > last_period_of_observations` branch is the case r = 0 *)
 Lemma osb_spec p (f : frec p) st :
